@@ -32,7 +32,10 @@ MANIFEST = {
                   "the same value) are tabulated, IEEE-754 is not computed in TLA+. Hex / _binary / introducer renderings "
                   "of strings would be read as 'no string literal'. Connection character sets in which 0x5c can be a "
                   "trail byte (gbk, sjis, big5) are not modelled: bytes are read as in utf8/latin1/binary. A refused "
-                  "execute is counted, not judged.",
+                  "execute is counted, not judged, except in the re-execute form (an earlier execution carried the parameter "
+                  "types, another packet passed, the judged execution sends new-params-bound = 0): there a refusal is a "
+                  "deviation when the same values are executed with the types sent. A panic of the session is always a "
+                  "deviation. Command-sequence properties of the statement table as such (stale values, isolation) are C16.",
     "technique": "executions recorded from the real SessionExecutor validated by TLC against the lexical specification "
                  "(trace validation, one verdict per execution)",
 }
